@@ -143,7 +143,7 @@ func c17RunSize(b core.Batch, r *core.Recorder) {
 		}
 	}
 	rec("", 0)
-	for _, s := range []string{"", "99999999999999999999T", "9223372036854775807B", "9223372036854775808B", "8388608T", "8388607T", "18446744073709551616K", "10Kxyz", "10KB", "10 K", "1e3K", "0x10K", "١K", "10K\n", "00010M", strings.Repeat("9", 40) + "G"} {
+	for _, s := range []string{"", "99999999999999999999T", "9223372036854775807B", "9223372036854775808B", "8388608T", "8388607T", "18446744073709551616K", "10Kxyz", "10KB", "10 K", "1e3K", "0x10K", "١K", "٣G", "１０G", "1٥K", "५M", "𝟏𝟎K", "1०B", "10K\n", "00010M", strings.Repeat("9", 40) + "G"} {
 		judge(s)
 	}
 	// products around and beyond the int64 / uint64 boundaries: digits x unit that wraps modulo 2^64 (to a
